@@ -302,6 +302,7 @@ func run(c *core.Case, st *core.CaseStats, seed int64) {
 			if s2 != string(got) || es(e2) != es(err) {
 				rep("HexDecodeToString", "value", in, string(got), s2)
 			}
+			core.Retain(st, c, "HexDecodeToString", in, s2)
 			ip := append([]byte{}, orig...)
 			n3, e3 := strz.HexDecodeInPlace(ip)
 			if n3 != rn || es(e3) != es(rerr) || !bytes.Equal(ip[:n3], ref[:rn]) {
@@ -322,6 +323,7 @@ func run(c *core.Case, st *core.CaseStats, seed int64) {
 			if !bytes.Equal(d, orig) {
 				rep("HexEncode", "value", in, "input not modified", d)
 			}
+			core.Retain(st, c, "HexEncodeToString", in, strz.HexEncodeToString(d))
 		})
 	case "digest":
 		name, n := argS(c, 0), argI(c, 1)
@@ -356,6 +358,8 @@ func run(c *core.Case, st *core.CaseStats, seed int64) {
 			if string(gb) != want || string(gs) != want || tb != want || ts != want {
 				rep("digest:"+name, "value", in, want, []string{string(gb), string(gs), tb, ts})
 			}
+			core.Retain(st, c, "digestToString", in, tb)
+			core.Retain(st, c, "digestToString", in, ts)
 		})
 	case "digeststream":
 		name, n, chunk, eof := argS(c, 0), argI(c, 1), argI(c, 2), argS(c, 3)
